@@ -73,6 +73,16 @@ func (c *Conn) Read(b []byte) (int, error) {
 // connection latency and throttling read throughput based on desired bandwidth
 // constraints.
 func (c *Conn) ReadFrom(r io.Reader) (int64, error) {
+	// A response that is being shaped has to pass through Write byte for byte:
+	// Write is what counts the body offset, enforces the throttles of the
+	// matching shape and performs its halt and close actions. The proxy writes
+	// responses through a bufio.Writer, which hands the remainder of a body to
+	// the ReadFrom of the underlying writer as soon as its buffer has been
+	// flushed once.
+	if c.Context != nil && c.Context.Shaping {
+		return io.Copy(writerOnly{c}, r)
+	}
+
 	c.ronce.Do(c.sleepLatency)
 
 	var total int64
@@ -91,6 +101,12 @@ func (c *Conn) ReadFrom(r io.Reader) (int64, error) {
 			return total, err
 		}
 	}
+}
+
+// writerOnly hides every method of a writer but Write, so that io.Copy does
+// not find ReadFrom again.
+type writerOnly struct {
+	io.Writer
 }
 
 // Close closes the connection.
